@@ -364,7 +364,7 @@ func (g *gen) readOp(repo int) Op {
 	default:
 		op.Mode = "tag"
 		op.Tag = g.anyTag(repo)
-		op.Accept = g.r.str("exact", "list", "multi", "params", "all", "all")
+		op.Accept = g.r.str("exact", "list", "multi", "params", "all", "all", "other")
 	}
 	if g.r.chance(35) {
 		sz := len(g.p.Objs[op.Obj%len(g.p.Objs)].data)
@@ -491,10 +491,26 @@ func planC01(prop string, seed uint64, tier string, idx int) *Plan {
 	// a blob whose content is itself a valid manifest
 	g.p.Objs = append(g.p.Objs, &Obj{Kind: "raw", Raw: `{"schemaVersion":2,"mediaType":"` + mtOCIIndex + `","manifests":[]}`, Subject: -1})
 	rawIdx := len(g.p.Objs) - 1
+	// an index over the image: read by tag with an Accept header that only takes the image type, the child is served
+	tidx := g.newIndex([]int{img}, -1)
+	// indexes whose child "digest" is a path: nothing may ever be served under such a name
+	var travIdx []int
+	for _, d := range []string{"sha256:../../index.json", "sha256:../../oci-layout", "sha256:../sha256/" + strings.Repeat("0", 64), "sha512:../../index.json"} {
+		g.p.Objs = append(g.p.Objs, &Obj{Kind: "raw", Raw: `{"schemaVersion":2,"mediaType":"` + mtOCIIndex + `","manifests":[{"mediaType":"` + mtOCIManifest + `","digest":"` + d + `","size":` + fmt.Sprint(g.r.pick(2, 30, 300)) + `}]}`, Subject: -1})
+		travIdx = append(travIdx, len(g.p.Objs)-1)
+	}
 	n := g.scale(g.r.between(4, 14))
 	for i := 0; i < n; i++ {
 		repo := g.r.intn(g.nrepos())
-		switch g.r.intn(12) {
+		switch g.r.intn(14) {
+		case 12:
+			tag := g.r.str("multi", "latest")
+			g.pushManifest(repo, tidx, tag, false)
+			g.add(Op{K: "get", Mode: "tag", Repo: repo, Tag: tag, Accept: g.r.str("other", "other", "all"), Head: g.r.chance(30)})
+		case 13:
+			ti := travIdx[g.r.intn(len(travIdx))]
+			g.add(Op{K: "man", Repo: repo, Obj: ti, Tag: "trav", CT: g.r.str("own", "none")})
+			g.add(Op{K: "get", Mode: "tag", Repo: repo, Tag: "trav", Accept: g.r.str("other", "all")})
 		case 0, 1, 2, 3:
 			b := blobs[g.r.intn(len(blobs))]
 			g.add(g.blobOp(repo, b, true))
